@@ -24,7 +24,7 @@ def dispatch (s : DState) (line : String) : DState × String :=
     else if cmd.startsWith "exp." then
       let (p, out) := Drive.Expand.step s.exp s.omen toks
       ({ s with exp := p }, out)
-    else if cmd.startsWith "ld." then
+    else if cmd.startsWith "ld." || cmd.startsWith "txt." then
       let (p, out) := Drive.Loader.step s.ld toks
       ({ s with ld := p }, out)
     else (s, "bad-op")
